@@ -1,7 +1,10 @@
 #!/bin/bash
-# usage: tools/seedtest.sh <patch.diff> <prop> [prop...]   -- apply to /repo, run checks, revert
+# usage: tools/seedtest.sh <patch.diff> <prop> [prop...]   -- apply to a scratch worktree of /repo, run checks there, revert
 P=$1; shift
-git -C /repo status --porcelain --untracked-files=no | grep -q . && { echo "repo dirty"; exit 2; }
-git -C /repo apply "$P" || { echo "patch does not apply"; exit 2; }
-for p in "$@"; do (cd /verif && VERIF_NO_EVIDENCE=1 ./check $p 2>&1 | cut -c1-220 | head -8); done
-git -C /repo checkout -- .
+R=${SELFTEST_REPO:-/tmp/verif_selftest_repo}
+H=$(git -C /repo rev-parse HEAD)
+[ -e "$R/.git" ] || { git -C /repo worktree prune; git -C /repo worktree add --detach "$R" "$H" >/dev/null 2>&1; }
+git -C "$R" checkout -q --detach "$H" && git -C "$R" checkout -- . || exit 2
+git -C "$R" apply "$P" || { echo "patch does not apply"; exit 2; }
+for p in "$@"; do (cd /verif && VERIF_REPO="$R" VERIF_NO_EVIDENCE=1 ./check $p 2>&1 | cut -c1-220 | head -8); done
+git -C "$R" checkout -- .
